@@ -117,9 +117,10 @@ def run_property(mod, pid, tier, seed, replay=None):
             # non-termination / an abort is a concrete failing input of any property about this operation
             preds = ["the implementation %s on this input: %s" % (
                 "did not terminate" if ri[0] == "HANG" else "aborted", ri[1])]
-        elif c.tag == "q:exact_lattice" and not getattr(mod, "Q_LATTICE_PREDICATES", True):
-            # operands inside the code's tolerance bands, where the idealised oracle of this module does not apply:
-            # decided by the exact comparison with the proved model alone
+        elif c.tag == "q:exact_lattice" and not getattr(mod, "Q_LATTICE_PREDICATES", False):
+            # operands with entries inside the code's tolerance bands ((0, eps], [1 - 2 eps, 1)), which the theorems
+            # exclude by hypothesis and where a property may hold only up to the tolerance or not at all (DESIGN 5.3):
+            # these cases are decided by the exact comparison with the proved model alone
             preds = []
         elif c.ty == "q":
             try:
